@@ -17,6 +17,8 @@ B_CODES = {
     77: "wheel entry with a deadline that was never inserted",
     78: "the runtime program never finished (a timer never fired)",
     79: "Timeout reported Elapsed although its inner future was ready at the first poll",
+    81: "a timer whose deadline passed while other tasks kept the driver busy fired only after the traffic "
+        "stopped (not within 200 traffic rounds of its deadline)",
     80: "the first delivered Interval tick was not start (a cancelled first tick moved the schedule)",
 }
 
@@ -270,6 +272,22 @@ def oracle_f(case, out):
     return None
 
 
+def oracle_t(case, out):
+    """mode 6: every timer fires while the traffic is still running, never early, nothing left"""
+    if out == [99999]:
+        return None
+    if out[:1] == [2]:
+        return "traffic program panicked: %r" % out
+    if len(case) < 5 or out[:1] != [0] or len(out) != case[4] + 2:
+        return B_CODES.get(out[1], "unexpected result %r" % out) if len(out) == 2 else "unexpected result %r" % out
+    for c in out[1:-1]:
+        if c != 1:
+            return B_CODES.get(c, "check %d failed" % c)
+    if out[-1] != 0:
+        return "%d timer(s) left in the runtime's wheel" % out[-1]
+    return None
+
+
 class C09(diffcheck.DiffProp):
     pid = "C09"
     manifest = dict(
@@ -289,7 +307,10 @@ class C09(diffcheck.DiffProp):
             "(both drivers, incl. timers next to I/O that completes at every driver poll and Intervals whose first "
             "tick is cancelled); mode 3 = Interval arithmetic with offsets/periods up to 1500 years; mode 4 = "
             "Runtime::poll_with/poll turns by hand with and without a waiting completion; mode 5 = first tick "
-            "dropped 1..5 times, deadline read back from the wheel; ~3% malformed. "
+            "dropped 1..5 times, deadline read back from the wheel; mode 6 = 1..4 timers (sleep_until/timeout_at/"
+            "timeout/sleep) next to pipe / socketpair ping-pong, cross-thread wakes, spawn_blocking results or inline "
+            "file ops that keep the driver delivering completions until >= 300 ms and >= 200 rounds after the last "
+            "deadline, all ten driver x traffic combinations; ~3% malformed. "
             "distinct = distinct case lines; non-trivial = accepted, and (mode 1) a timer entered the wheel and "
             "the wheel was observed afterwards, (mode 2/3) the program ran")
     trusted_base = [
@@ -333,6 +354,8 @@ class C09(diffcheck.DiffProp):
                 return oracle_l(case, out)
             if case[0] == 5:
                 return oracle_f(case, out)
+            if case[0] == 6:
+                return oracle_t(case, out)
         except Exception as e:  # malformed output must not crash the check
             return "oracle could not decode the output: %r" % (e,)
         return None if out == [99999] else "malformed case was not rejected"
@@ -357,6 +380,11 @@ class C09(diffcheck.DiffProp):
                     stats["mode2_programs"] += 1
                     stats["mode2_steps"] += int(f[2])
                     stats["mode2_indeterminate_steps"] += int(f[4])
+                elif f[:1] == ["T"] and len(f) == 11:
+                    stats["traffic_programs"] = stats.get("traffic_programs", 0) + 1
+                    if f[8].isdigit() and f[10].isdigit():
+                        stats["traffic_max_lateness_rounds"] = max(stats.get("traffic_max_lateness_rounds", 0), int(f[8]))
+                        stats["traffic_max_lateness_us"] = max(stats.get("traffic_max_lateness_us", 0), int(f[10]))
                 elif f[:2] == ["A", "retries"]:
                     stats["mode1_cases_retried_with_longer_slots"] += 1
                 elif f[:2] == ["A", "gave-up"]:
